@@ -1251,6 +1251,40 @@ def write_fault_corpus() -> List[dict]:
     return out
 
 
+def ws_sequence_fault_corpus() -> List[dict]:
+    """the peer resets at EVERY write of the sequences in which a WebSocket stream answers and closes on its own: the 404 / 400
+    to the handshake, the 400 for a frame that arrives before the acceptance (application still working on the handshake /
+    waiting for its disconnect), the 500 for an application that has finished, the 403 / the application's own rejection, the
+    101 and the close frame 1011 of an application that dies, the echo of the client's close frame"""
+    from wsproto import ConnectionType
+    from wsproto.connection import Connection
+    out: List[dict] = []
+    wc = C.WsClient(path="/r0")
+    hs = wc.default_headers("h1")
+    good = b2s(wc.h1_request(hs))
+    no_key = b2s(wc.h1_request([h for h in hs if h[0].lower() != b"sec-websocket-key"]))
+    bad_host = b2s(wc.h1_request([(n, (b"bad" if n.lower() == b"host" else v)) for n, v in hs]))
+    wc.conn = Connection(ConnectionType.CLIENT, [])
+    frame = b2s(wc.message("text", [b"hi"]))
+    close = b2s(wc.close(1000))
+
+    def add(name: str, app: str, client: List[list], ks: tuple, names: Optional[List[str]] = None) -> None:
+        for k in ks:
+            out.append({"family": "ws_sequence_fault", "key": ["ws", name, k], "proto": "h1", "T": 1, "cap": 10, "server_names": names, "terminate_at": None,
+                        "fail_at_write": k, "apps": [WS_APPS[app]], "client": client + [["sleep", 3], ["eof"]], "tail": 8})
+    add("404", "accept_echo_close", [["send", bad_host]], (1, 2), ["good"])
+    add("400", "accept_echo_close", [["send", no_key]], (1, 2))
+    add("early_data_400", "slow_accept", [["send", good], ["sleep", 0.1], ["send", frame]], (1, 2))
+    add("early_data_400_app_waits", "wait_disconnect_unaccepted", [["send", good], ["sleep", 0.1], ["send", frame]], (1, 2))
+    add("exit_500", "exit_handshake", [["send", good]], (1, 2))
+    add("reject_403", "reject_403", [["send", good]], (1, 2))
+    add("reject_http", "reject_http", [["send", good]], (1, 2, 3))
+    add("raise_connected", "raise_connected", [["send", good]], (1, 2))
+    add("client_close_echo", "accept_until_disconnect", [["send", good], ["sleep", 0.1], ["send", close]], (1, 2))
+    add("message_then_close_echo", "accept_until_disconnect", [["send", good], ["sleep", 0.1], ["send", frame], ["sleep", 0.1], ["send", close]], (2,))
+    return out
+
+
 def with_pause(h: dict, pos: int, d: float, then: Optional[str] = None) -> dict:
     c = [list(a) for a in h["client"]]
     c.insert(pos, ["sleep", d])
